@@ -183,16 +183,15 @@ PROPS["C07"] = {
     "assumptions": ["a leading '+' in Integer/DoubleInteger text is not covered by the documented grammar (three-valued oracle)"],
 }
 PROPS["C11"] = {
-    "module": "MsiProofs.Props.C11",
+    "module": "MsiProofs.Props.C11b",
     "gen": ["streamname"],
     "profiles": ["dev"],
     "theorems": [
         "MsiProofs.C11.constants", "MsiProofs.C11.toB64_lt", "MsiProofs.C11.fromB64_toB64",
         "MsiProofs.C11.encode_codepoints_valid", "MsiProofs.C11.decodeAux_encodeAux", "MsiProofs.C11.decode_encode",
         "MsiProofs.C11.encode_injective", "MsiProofs.C11.encodeAux_chars", "MsiProofs.C11.special_has_packable",
-        "MsiProofs.C11.separated",
-    ],
-    "level_text": "Lean theorems about the stream-name codec for every name: decode(encode n) = n on every accepted name, hence accepted names never "
+        "MsiProofs.C11.separated", "MsiProofs.C11.user_stream_injective", "MsiProofs.C11.read_after_write", "MsiProofs.C11.write_other", "MsiProofs.C11.remove_then_read", "MsiProofs.C11.remove_other", "MsiProofs.C11.dml_keeps_streams", "MsiProofs.C11.write_keeps_rows"],
+    "level_text": "STREAM CONTENTS as a map: read returns the last write (overwrite truncates), a write or removal of one name leaves every other name as it was - names compared as cfb compares them (UTF-16 length + upper-cased text) -, no insert/update/delete (accepted or refused) changes what a stream reads as, no stream write changes a table's stored rows. Lean theorems about the stream-name codec for every name: decode(encode n) = n on every accepted name, hence accepted names never "
                   "collide or alias; every code point the encoder builds is a valid scalar (the unwraps cannot fail); encoded user names never equal a "
                   "summary/signature stream name, never start with the table marker, contain no container-reserved character and fit 31 UTF-16 units; "
                   "tie: is_valid/encode/decode of the real crate (cfg(msi_verif) hook) vs model on all short names over an adversarial alphabet, every "
@@ -211,8 +210,8 @@ PROPS["C01"] = {
     "module": "MsiProofs.Props.C01",
     "gen": ["limits", "summary", "column", "streamname", "category", "codepage"],
     "profiles": ["dev"],
-    "theorems": ["MsiProofs.C01.cell_roundtrip", "MsiProofs.C01.rows_roundtrip", "MsiProofs.C01.pool_roundtrip", "MsiProofs.C01.storable_spec", "MsiProofs.C01.flush_clean", "MsiProofs.C01.finish_clears", "MsiProofs.C01.flush_idempotent", "MsiProofs.C01.close_modes_same_bytes", "MsiProofs.C01.open_synced", "MsiProofs.C01.op_step", "MsiProofs.C01.history", "MsiProofs.C01.finish_saved", "MsiProofs.C01.finish_step", "MsiProofs.C01.openCore_of_saved", "MsiProofs.C01.reopen_after_any_history", "MsiProofs.C01.table_stream_notMeta", "MsiProofs.C01.user_stream_notMeta"],
-    "level_text": 'Lean theorems on the package model: HISTORIES — an invariant (Synced: whenever a modified flag is down, the summary/pool streams of the container decode to the in-memory summary/pool) that open establishes, that every API request preserves (insert, update, delete, create_table, drop_table, stream write/remove, signature removal, summary and code-page setters; accepted or refused; induction over the request list, no bound) and that a successful save re-establishes; hence reopen_after_any_history: after any history and a successful save, reopening yields the same container, summary information and string pool, so every table definition reads the same rows. Uses the frame condition that table and user streams never are the metadata streams under cfb\'s case-insensitive comparison (proved; false for tables named _StringPool/_StringData, which is how defect D22 was found). Layers: string-pool, row-block, cell and property-set round trips; the empty string is stored as null; flush writes exactly what changed and a second flush changes nothing; the three ways of closing leave the same bytes. NOT proved (tied by correspondence + oracle): that the catalog pass over the saved container returns the in-memory table definitions; that reachable states are expressible in the format (Savable is a hypothesis at the save). Composition on the real code: byte-exact correspondence model vs real crate + oracle on the real code: snapshot before close = snapshot after reopen, for every close mode incl. crash-after-flush (bytes on the medium when flush returned, package forgotten).',
+    "theorems": ["MsiProofs.C01.cell_roundtrip", "MsiProofs.C01.rows_roundtrip", "MsiProofs.C01.pool_roundtrip", "MsiProofs.C01.storable_spec", "MsiProofs.C01.flush_clean", "MsiProofs.C01.finish_clears", "MsiProofs.C01.flush_idempotent", "MsiProofs.C01.close_modes_same_bytes", "MsiProofs.C01.open_synced", "MsiProofs.C01.op_step", "MsiProofs.C01.history", "MsiProofs.C01.finish_saved", "MsiProofs.C01.finish_step", "MsiProofs.C01.openCore_of_saved", "MsiProofs.C01.reopen_after_any_history", "MsiProofs.C01.table_stream_notMeta", "MsiProofs.C01.user_stream_notMeta", "MsiProofs.C01.ascii_roundtrip", "MsiProofs.C01.poolOk_ascii"],
+    "level_text": 'For ASCII text the codec part of Savable is a theorem under every code page (poolOk_ascii). Lean theorems on the package model: HISTORIES — an invariant (Synced: whenever a modified flag is down, the summary/pool streams of the container decode to the in-memory summary/pool) that open establishes, that every API request preserves (insert, update, delete, create_table, drop_table, stream write/remove, signature removal, summary and code-page setters; accepted or refused; induction over the request list, no bound) and that a successful save re-establishes; hence reopen_after_any_history: after any history and a successful save, reopening yields the same container, summary information and string pool, so every table definition reads the same rows. Uses the frame condition that table and user streams never are the metadata streams under cfb\'s case-insensitive comparison (proved; false for tables named _StringPool/_StringData, which is how defect D22 was found). Layers: string-pool, row-block, cell and property-set round trips; the empty string is stored as null; flush writes exactly what changed and a second flush changes nothing; the three ways of closing leave the same bytes. NOT proved (tied by correspondence + oracle): that the catalog pass over the saved container returns the in-memory table definitions; that reachable states are expressible in the format (Savable is a hypothesis at the save). Composition on the real code: byte-exact correspondence model vs real crate + oracle on the real code: snapshot before close = snapshot after reopen, for every close mode incl. crash-after-flush (bytes on the medium when flush returned, package forgotten).',
     "level_note": "Trusted: Lean kernel; the hand-written package model (MsiModel/Pkg.lean, PkgApi.lean, Pool, Table, PropSet, Summary), tied to the code by byte-exact correspondence: the same request histories run on the real crate and on the model's definitions, compared on every reply including full snapshots and the raw bytes of every saved stream; cfb is modelled as a finite map from names (compared by UTF-16 length and upper-cased text) to byte strings; the 24 table-backed code pages are modelled on ASCII text only (non-ASCII text is exercised under UTF-8; all pages are exercised by the oracle on the real code).",
     "technique": 'Lean 4 proof (codec round trip, flush idempotence) + byte-exact differential histories + reopen oracle',
     "rule": 'seeded random sessions: package type, database code page, 1-3 tables with random schemas (types, widths, flags, ranges, categories, enumerations, composite/nullable keys), inserts (valid with controlled invalid mutations), updates (incl. key columns), deletes, selects, stream writes/removes (0..9000 bytes), summary setters/clearers, create/drop table, rejected calls, close/reopen in all three modes at random positions, snapshot after every step, raw bytes after flush. non-trivial = distinct successful mutating requests + decoded files',
@@ -237,8 +236,8 @@ PROPS["C04"] = {
     "module": "MsiProofs.Props.C04",
     "gen": ["limits", "column", "category", "streamname"],
     "profiles": ["dev"],
-    "theorems": ["MsiProofs.C04.createTable_rejected_noop", "MsiProofs.C04.createError_covers", "MsiProofs.C04.dropTable_rejected_noop", "MsiProofs.C04.stream_rejected_noop", "MsiProofs.C04.removeStream_missing_noop", "MsiProofs.C04.writeCols_err", "MsiProofs.C04.insert_rejected_noop", "MsiProofs.C04.delete_rejected_noop"],
-    "level_text": 'Lean theorems: a step of the model returns the state it leaves behind also on error; create_table performs every check (names, arity, key, duplicates, existence, storability, validity of all catalog rows) before its first mutation and returns the state untouched when one fails; likewise drop_table, the stream calls, and the argument rejections of Insert::exec / Delete::exec (write_rows can only fail with InvalidInput). Tie: every rejected call in the histories is followed by a snapshot compared with the previous one, and by save/reopen.',
+    "theorems": ["MsiProofs.C04.createTable_rejected_noop", "MsiProofs.C04.createError_covers", "MsiProofs.C04.dropTable_rejected_noop", "MsiProofs.C04.stream_rejected_noop", "MsiProofs.C04.removeStream_missing_noop", "MsiProofs.C04.writeCols_err", "MsiProofs.C04.insert_rejected_noop", "MsiProofs.C04.delete_rejected_noop", "MsiProofs.C04.update_rejected_noop", "MsiProofs.C04.update_invalid_noop", "MsiProofs.C04.storeRows_err"],
+    "level_text": 'Update::exec too: every rejection other than a late InvalidInput returns the state it was given (unknown table, key collision, malformed stored table), and the InvalidInput rejections of its checks precede any change. Lean theorems: a step of the model returns the state it leaves behind also on error; create_table performs every check (names, arity, key, duplicates, existence, storability, validity of all catalog rows) before its first mutation and returns the state untouched when one fails; likewise drop_table, the stream calls, and the argument rejections of Insert::exec / Delete::exec (write_rows can only fail with InvalidInput). Tie: every rejected call in the histories is followed by a snapshot compared with the previous one, and by save/reopen.',
     "level_note": "Trusted: Lean kernel; the hand-written package model (MsiModel/Pkg.lean, PkgApi.lean, Pool, Table, PropSet, Summary), tied to the code by byte-exact correspondence: the same request histories run on the real crate and on the model's definitions, compared on every reply including full snapshots and the raw bytes of every saved stream; cfb is modelled as a finite map from names (compared by UTF-16 length and upper-cased text) to byte strings; the 24 table-backed code pages are modelled on ASCII text only (non-ASCII text is exercised under UTF-8; all pages are exercised by the oracle on the real code).",
     "technique": 'Lean 4 proof (error paths return the input state) + snapshot-equality oracle on rejected calls',
     "rule": 'seeded random sessions: package type, database code page, 1-3 tables with random schemas (types, widths, flags, ranges, categories, enumerations, composite/nullable keys), inserts (valid with controlled invalid mutations), updates (incl. key columns), deletes, selects, stream writes/removes (0..9000 bytes), summary setters/clearers, create/drop table, rejected calls, close/reopen in all three modes at random positions, snapshot after every step, raw bytes after flush. non-trivial = distinct successful mutating requests + decoded files',
@@ -289,8 +288,8 @@ PROPS["C10"] = {
     "module": "MsiProofs.Props.C10",
     "gen": ["summary", "codepage", "limits"],
     "profiles": ["dev"],
-    "theorems": ["MsiProofs.C10.value_size_exact", "MsiProofs.C10.value_tag", "MsiProofs.C10.insertSorted_get", "MsiProofs.C10.set_get", "MsiProofs.C10.remove_get", "MsiProofs.C10.codepage_follows_set", "MsiProofs.C10.val_roundtrip", "MsiProofs.C10.propset_roundtrip", "MsiProofs.C10.demo_wf"],
-    "level_text": 'Lean theorems: READER ROUND TRIP — PropSet.read (PropSet.write p) = p for every well-formed property set (header fields, code page entry consistent with the page in use, ascending ids, values in range, total size < 2^32), in every code page whose codec round-trips the strings (codec = parameter, the contract C14 decides); every property value is written in exactly the number of bytes the offset table assumes (the encoded length for strings), a multiple of four, with the type tag the reader dispatches on — so offsets are exact and aligned and the section size is exact, for every property set and codec; setters are last-write-wins, clearing makes a property absent, others untouched; the cached code page follows property 1 for every ordered pair of the 26 pages incl. back to UTF-8. Tie: getters before/after reopen vs an independent expectation, raw summary bytes model vs real.',
+    "theorems": ["MsiProofs.C10.value_size_exact", "MsiProofs.C10.value_tag", "MsiProofs.C10.insertSorted_get", "MsiProofs.C10.set_get", "MsiProofs.C10.remove_get", "MsiProofs.C10.codepage_follows_set", "MsiProofs.C10.val_roundtrip", "MsiProofs.C10.propset_roundtrip", "MsiProofs.C10.demo_wf", "MsiProofs.C10.valOk_ascii"],
+    "level_text": 'For ASCII strings the codec hypothesis is a theorem under every code page (valOk_ascii). Lean theorems: READER ROUND TRIP — PropSet.read (PropSet.write p) = p for every well-formed property set (header fields, code page entry consistent with the page in use, ascending ids, values in range, total size < 2^32), in every code page whose codec round-trips the strings (codec = parameter, the contract C14 decides); every property value is written in exactly the number of bytes the offset table assumes (the encoded length for strings), a multiple of four, with the type tag the reader dispatches on — so offsets are exact and aligned and the section size is exact, for every property set and codec; setters are last-write-wins, clearing makes a property absent, others untouched; the cached code page follows property 1 for every ordered pair of the 26 pages incl. back to UTF-8. Tie: getters before/after reopen vs an independent expectation, raw summary bytes model vs real.',
     "level_note": "Trusted: Lean kernel; the hand-written package model (MsiModel/Pkg.lean, PkgApi.lean, Pool, Table, PropSet, Summary), tied to the code by byte-exact correspondence: the same request histories run on the real crate and on the model's definitions, compared on every reply including full snapshots and the raw bytes of every saved stream; cfb is modelled as a finite map from names (compared by UTF-16 length and upper-cased text) to byte strings; the 24 table-backed code pages are modelled on ASCII text only (non-ASCII text is exercised under UTF-8; all pages are exercised by the oracle on the real code).",
     "technique": 'Lean 4 proof (size = written length; setter algebra; decide on regenerated ids) + correspondence of summary bytes and getters',
     "rule": 'seeded random sessions: package type, database code page, 1-3 tables with random schemas (types, widths, flags, ranges, categories, enumerations, composite/nullable keys), inserts (valid with controlled invalid mutations), updates (incl. key columns), deletes, selects, stream writes/removes (0..9000 bytes), summary setters/clearers, create/drop table, rejected calls, close/reopen in all three modes at random positions, snapshot after every step, raw bytes after flush. non-trivial = distinct successful mutating requests + decoded files',
@@ -353,12 +352,12 @@ PROPS["C15"] = {
 }
 
 PROPS["C09"] = {
-    "module": "MsiProofs.Props.C09",
+    "module": "MsiProofs.Props.C09b",
     "gen": ["limits", "summary", "column", "codepage", "category"],
     "profiles": ["dev"],
     "theorems": ["MsiProofs.C09.np_bind", "MsiProofs.C09.np_propset_read", "MsiProofs.C09.np_pool_read", "MsiProofs.C09.np_readRows",
-                 "MsiProofs.C09.np_openCore", "MsiProofs.C09.open_never_panics", "MsiProofs.C09.stream_reads_never_panic"],
-    "level_text": "Lean theorem: in the model every unwrap / index / panic! / debug_assert! of the Rust is a visible `panic` outcome, and Package::open has no reachable panic outcome for ANY container (any map from stream names to byte strings, any root class id) - proved by showing every reader (property set with seeks, string pool with the long-string escape, column-major tables, the three catalog passes, type words) panic-free under bind. Partial: bytes -> container is the cfb crate, and mutating operations on foreign files are tied by correspondence rather than proved. Tie: three-way outcome diff (value / error kind / panic) of open and of a battery of read and mutate+flush calls on structure-aware corruptions of three base files (one written by the library, two by the independent encoder incl. three-byte references): any word of any stream replaced (null / dangling / huge reference, out-of-range number, pool lengths and counts, header words), streams truncated, extended, missing, property-set bytes mutated, wrong class id; plus raw and byte-damaged files straight into Package::open (fuzzing in support).",
+                 "MsiProofs.C09.np_openCore", "MsiProofs.C09.open_never_panics", "MsiProofs.C09.stream_reads_never_panic", "MsiProofs.C09.readRows_width", "MsiProofs.C09.delete_never_panics", "MsiProofs.C09.insert_never_panics", "MsiProofs.C09.update_never_panics"],
+    "level_text": "MUTATING OPERATIONS: Delete::exec has no panic outcome on ANY package state (rows read have one cell per column, the condition names only existing columns, kept rows are written back in range); Insert::exec and Update::exec have none while the string pool has room for the new strings (Room: the only reachable panic is the capacity panic of incref, known finding D16b; the unreachable branch after the duplicate check is proved unreachable; update's re-ordering indexes rows in range). Lean theorem: in the model every unwrap / index / panic! / debug_assert! of the Rust is a visible `panic` outcome, and Package::open has no reachable panic outcome for ANY container (any map from stream names to byte strings, any root class id) - proved by showing every reader (property set with seeks, string pool with the long-string escape, column-major tables, the three catalog passes, type words) panic-free under bind. Partial: bytes -> container is the cfb crate, and mutating operations on foreign files are tied by correspondence rather than proved. Tie: three-way outcome diff (value / error kind / panic) of open and of a battery of read and mutate+flush calls on structure-aware corruptions of three base files (one written by the library, two by the independent encoder incl. three-byte references): any word of any stream replaced (null / dangling / huge reference, out-of-range number, pool lengths and counts, header words), streams truncated, extended, missing, property-set bytes mutated, wrong class id; plus raw and byte-damaged files straight into Package::open (fuzzing in support).",
     "level_note": PROPS["C01"]["level_note"] + " FFI (ffi/src/lib.rs) is not executed by the harness: its two panic sites were repaired and its calls are the same open / getters / select exercised here.",
     "technique": "Lean 4 proof (panic-freedom of the reader for all containers) + three-way outcome differential testing on corruptions",
     "rule": "one corruption per case (open walks a HashMap: with two faults the first error met is not fixed); kinds: word_replaced, truncated, halved, extended, stream_missing, summary_byte, summary_values (well-formed property set, hostile values), pool_lengths (long-string escapes summing past 2^32), wrong_clsid; each followed by a fixed battery of 18 calls; raw byte inputs: random bytes, truncated files, files with 1-4 damaged bytes. non-trivial = distinct inputs",
